@@ -203,7 +203,7 @@ class Chipset(object):
 
         if frame.startswith(self.SOF + b'\xFF\xFF'):
             # extended frame
-            if sum(frame[5:8]) & 0xFF != 0:
+            if len(frame) < 10 or sum(frame[5:8]) & 0xFF != 0:
                 self.log.error("frame lenght checksum error")
                 raise IOError(errno.EIO, os.strerror(errno.EIO))
             if unpack(">H", memoryview(frame[5:7]))[0] != len(frame) - 10:
@@ -212,7 +212,7 @@ class Chipset(object):
             del frame[0:8]
         elif frame.startswith(self.SOF):
             # normal frame
-            if sum(frame[3:5]) & 0xFF != 0:
+            if len(frame) < 7 or sum(frame[3:5]) & 0xFF != 0:
                 self.log.error("frame lenght checksum error")
                 raise IOError(errno.EIO, os.strerror(errno.EIO))
             if frame[3] != len(frame) - 7:
@@ -223,7 +223,7 @@ class Chipset(object):
             self.log.debug("invalid frame start sequence")
             raise IOError(errno.EIO, os.strerror(errno.EIO))
 
-        if not sum(frame) & 0xFF == 0:
+        if not sum(frame[:-1]) & 0xFF == 0 or frame[-1] != 0:
             self.log.error("frame data checksum error")
             raise IOError(errno.EIO, os.strerror(errno.EIO))
 
